@@ -98,6 +98,20 @@ impl C14 {
         let want_pipes = rng.range(1, 4);
         for step in 0..=nops {
             let drain = step == nops;
+            // further handlers installed in the middle of the run leave the pipes and their contents alone
+            if rng.below(24) == 0 {
+                let which = match rng.below(3) {
+                    0 => vec![Syscall::Brk],
+                    1 => vec![Syscall::Pipe, Syscall::ArchPrctl],
+                    _ => vec![Syscall::Pipe],
+                };
+                let r = call(|| ax.handle_syscalls(which.clone()));
+                tail.push(format!("handle_syscalls({:?}) -> {}", which, r.kind()));
+                col.distinct_key("install-mid-run");
+                if r.is_panic() {
+                    return fail(col, &format!("panic:{}", r.panic_key()), r.describe(), &tail);
+                }
+            }
             let op = if pipes.len() < want_pipes as usize && (pipes.is_empty() || rng.below(5) == 0) { 0 } else if drain { 99 } else { 1 + rng.below(9) };
             match op {
                 0 => {
